@@ -1,6 +1,6 @@
 (* Corr/C01cascade.v -- judges for the statement-classification layer of C01 *)
 From Coq Require Import String.
-From Ford Require Import Base.Str Base.StrX Sem.Tree Sem.TypeSpec Sem.DeclSpec Sem.CascadeTypes Sem.Cascade Sem.CascadeSpec Corr.C01.
+From Ford Require Import Base.Str Base.StrX Sem.Tree Sem.TypeSpec Sem.DeclSpec Sem.CascadeTypes Sem.Cascade Sem.CascadeSpec Sem.CascadeTree Corr.C01.
 
 Definition ckind_tag (k : ckind) : str :=
   match k with
@@ -118,3 +118,15 @@ Definition theorem_instance (p : ckind * bool * bool * sline) : nat :=
     | Unmod => 1
     end
   else 1000.
+
+(* ------------------------------------------------------------------ whole files, from the reader's lines *)
+(* file name, the logical lines the reader delivers, FORD's tree or an error code: 0 = the text-level
+   model (classification + structure) gives the tree FORD gives, 1 = not, 1000 = a line outside the model *)
+Definition judge_text (c : str * list str * (ent + nat)) : nat :=
+  let '(fname, lines, impl) := c in
+  match parse_text fname lines, impl with
+  | TUnmod, _ => 1000
+  | TOk e [], inl t => if ent_eqb (S (ent_size e + ent_size t)) e t then 0 else 1
+  | TErr _, inr _ => 0
+  | _, _ => 1
+  end.
